@@ -12,6 +12,7 @@ import (
 	"regexp"
 	"sort"
 	"strings"
+	"sync"
 
 	"github.com/TarsCloud/TarsGo/tars/util/conf"
 )
@@ -173,8 +174,39 @@ func eqB(a []B, b []string) bool {
 
 func domPath(p []string) string { return "/" + strings.Join(p, "/") }
 
+var c17Stats = struct {
+	sync.Mutex
+	m map[string]int
+}{m: map[string]int{}}
+
+func c17Count(k string) {
+	c17Stats.Lock()
+	c17Stats.m[k]++
+	c17Stats.Unlock()
+}
+
 func c17Run(c *c17Case) []Failure {
+	fs := c17RunCase(c)
+	c17Count("kind/" + c.Kind)
+	if c.Sure {
+		c17Count("claimed-in-alphabet")
+	} else {
+		c17Count("not-claimed-in-alphabet (compared only when the model classifies the input as modelled)")
+	}
+	if c.Err {
+		c17Count("outcome/error")
+	} else if c.PanicMsg == "" {
+		c17Count("outcome/accepted")
+	}
+	c17Stats.Lock()
+	c17Stats.m["getter-batteries"] += len(c.Queries)
+	c17Stats.Unlock()
+	return fs
+}
+
+func c17RunCase(c *c17Case) []Failure {
 	var fs []Failure
+	c.Queries, c.Err, c.ErrMsg, c.PanicMsg = nil, false, "", "" // a replayed case carries the observations of the failing run
 	doc := c.doc()
 	cf := conf.New()
 	var err error
@@ -321,6 +353,30 @@ func c17Run(c *c17Case) []Failure {
 			if kq.BoolT != c17ExBool(kv[1], true) || kq.BoolF != c17ExBool(kv[1], false) {
 				bad("conf.GetBool/typed-differs", "GetBoolWithDef(%q) = %v/%v (defaults true/false) for value %q", string(kq.Path), kq.BoolT, kq.BoolF, kv[1])
 			}
+		}
+	}
+	// the two documented spellings of a path: /A/B/C<data> and /A/B/C/<data>; /A/B/C and /A/B/C/
+	for _, d := range c.Expect {
+		dp := domPath(d.Path)
+		if len(d.Path) == 0 {
+			continue
+		}
+		pm := c17Safe(func() {
+			a, b := sortedB(cf.GetDomainKey(dp)), sortedB(cf.GetDomainKey(dp+"/"))
+			if fmt.Sprint(a) != fmt.Sprint(b) {
+				bad("conf.path/spelling-differs", "GetDomainKey(%q) = %q but GetDomainKey(%q) = %q", dp, a, dp+"/", b)
+			}
+			for i, kv := range d.KV {
+				if c17Addressable(kv[0]) && i < 4 {
+					p1, p2 := dp+"<"+kv[0]+">", dp+"/<"+kv[0]+">"
+					if v1, v2 := cf.GetStringWithDef(p1, c17DefStr), cf.GetStringWithDef(p2, c17DefStr); v1 != v2 {
+						bad("conf.path/spelling-differs", "GetString(%q) = %q but GetString(%q) = %q", p1, v1, p2, v2)
+					}
+				}
+			}
+		})
+		if pm != "" {
+			bad("conf.getter/panic", "a getter panicked on a spelling of %q: %s", dp, pm)
 		}
 	}
 	if c.Expect != nil {
@@ -1015,6 +1071,11 @@ func init() {
 			Shard: 60, Workers: 6,
 			Corpus: c17Corpus, Gen: c17Gen, Run: c17Run, Coq: c17Coq,
 			Class: func(c *c17Case) string { return c.Class },
+			Extra: func(tier string, rng *rand.Rand, res *Result) {
+				c17Stats.Lock()
+				res.Stats["c17"] = c17Stats.m
+				c17Stats.Unlock()
+			},
 		}, a)
 	}
 }
